@@ -228,7 +228,8 @@ func randTree(rng *rand.Rand, d int, exact bool) *tree {
 
 // ---------------------------------------------------------------------------------------------
 // Operand supplies: per operand 'N' nullable Boolean column, 'B' non-nullable Boolean column,
-// 'L' literal, 'C' a comparison (strict function) over a nullable Int column.
+// 'L' literal, 'C' a comparison (strict function) over a nullable Int column, 'U' / 'V' a column typed
+// NULL | Boolean | String resp. NULL | Boolean | [Int] that only ever holds Booleans and NULLs.
 
 type supply [3]byte
 
@@ -256,6 +257,18 @@ func buildTable(s supply) *suppliedTable {
 			cols = append(cols, i)
 		case 'B':
 			fields = append(fields, physical.SchemaField{Name: names[i], Type: octosql.Boolean})
+			cols = append(cols, i)
+		case 'U', 'V':
+			// a union-typed nullable Boolean column whose static type only MAY be Boolean: NULL | Boolean |
+			// String ('U') or NULL | Boolean | [Int] ('V'); no row holds the partner alternative. NOT over
+			// it goes through the runtime type assertion path of FunctionExpression.Typecheck.
+			partner := octosql.String
+			if s[i] == 'V' {
+				el := octosql.Int
+				partner = octosql.Type{TypeID: octosql.TypeIDList, List: struct{ Element *octosql.Type }{Element: &el}}
+			}
+			fields = append(fields, physical.SchemaField{Name: strings.ToLower(string(s[i])) + names[i], Type: octosql.Type{TypeID: octosql.TypeIDUnion,
+				Union: struct{ Alternatives []octosql.Type }{Alternatives: []octosql.Type{octosql.Null, octosql.Boolean, partner}}}})
 			cols = append(cols, i)
 		case 'C':
 			// the operand is the comparison (i<name> < 1) over a nullable Int column: 0 -> TRUE, 5 -> FALSE, NULL -> NULL
@@ -302,9 +315,9 @@ var allSupplies []supply
 var tables = map[supply]*suppliedTable{}
 
 func init() {
-	for _, x := range "NBLC" {
-		for _, y := range "NBLC" {
-			for _, z := range "NBLC" {
+	for _, x := range "NBLCUV" {
+		for _, y := range "NBLCUV" {
+			for _, z := range "NBLCUV" {
 				s := supply{byte(x), byte(y), byte(z)}
 				allSupplies = append(allSupplies, s)
 				tables[s] = buildTable(s)
@@ -394,6 +407,9 @@ func (j *judge) checkTree(id string, t *tree, s supply, variant int, whereSample
 			leaves[i] = names[i]
 			if s[i] == 'C' {
 				leaves[i] = "(i" + names[i] + " < 1)"
+			}
+			if s[i] == 'U' || s[i] == 'V' {
+				leaves[i] = strings.ToLower(string(s[i])) + names[i]
 			}
 		}
 		for _, i := range lits {
@@ -610,30 +626,39 @@ func Run(c *core.Ctx) core.FinishOpts {
 	workers := runtime.NumCPU()
 	defer debug.SetGCPercent(debug.SetGCPercent(400)) // allocation-heavy, tiny live heap
 
-	pure := []supply{{'N', 'N', 'N'}, {'B', 'B', 'B'}, {'L', 'L', 'L'}, {'C', 'C', 'C'}}
+	pure := []supply{{'N', 'N', 'N'}, {'B', 'B', 'B'}, {'L', 'L', 'L'}, {'C', 'C', 'C'}, {'U', 'U', 'U'}, {'V', 'V', 'V'}}
 	var mixed []supply
 	for _, s := range allSupplies {
-		if s != pure[0] && s != pure[1] && s != pure[2] && s != pure[3] {
+		isPure := false
+		for _, p := range pure {
+			isPure = isPure || s == p
+		}
+		if !isPure {
 			mixed = append(mixed, s)
 		}
 	}
 
 	// exhaustive part: every tree of depth <= 2 under the three pure supplies and under two of the
-	// 60 mixed supplies (rotating with the tree index, so every mixed supply is used)
+	// 210 mixed supplies (rotating with the tree index, so every mixed supply is used)
 	ex := allTrees(2)
 	c.Note("exhaustive_trees_depth_le_2", len(ex))
-	c.Note("exhaustive_bound", "all trees of depth <= 2 over operands a,b,c and {AND, OR, NOT, IS NULL, IS NOT NULL}; all 27 assignments; supplies NNN, BBB (8 assignments), CCC (operands are comparisons over nullable Int columns), LLL + 2 of the 60 mixed supplies per tree; WHERE with optimizer off/on x pushdown off/on")
+	c.Note("exhaustive_bound", "all trees of depth <= 2 over operands a,b,c and {AND, OR, NOT, IS NULL, IS NOT NULL}; all 27 assignments; supplies NNN, BBB (8 assignments), CCC (operands are comparisons over nullable Int columns), UUU / VVV (columns typed NULL | Boolean | String resp. NULL | Boolean | [Int]: runtime type assertions), LLL + 2 of the 210 mixed supplies per tree; WHERE with optimizer off/on x pushdown off/on")
 	core.Parallel(len(ex), workers, func(i int) {
 		t := ex[i]
-		for k, s := range []supply{pure[0], pure[1], pure[3], pure[2], mixed[(2*i)%len(mixed)], mixed[(2*i+1)%len(mixed)]} {
+		for k, s := range []supply{pure[0], pure[1], pure[3], pure[4], pure[5], pure[2], mixed[(2*i)%len(mixed)], mixed[(2*i+1)%len(mixed)]} {
 			id := fmt.Sprintf("ex-%d-%s", i, string(s[:]))
 			if only != "" && only != id {
 				continue
 			}
-			if k < 3 {
-				// column supplies: all four optimizer/pushdown variants
+			if k == 0 {
+				// nullable Boolean columns: all four optimizer/pushdown variants
 				for v := 0; v < 4; v++ {
 					j.checkTree(id, t, s, v, 0, 0)
+				}
+			} else if k < 5 {
+				// the other column supplies: two of the four variants, rotating with the tree index
+				for v := 0; v < 2; v++ {
+					j.checkTree(id, t, s, (i+k+2*v+v)%4, 0, 0)
 				}
 			} else {
 				j.checkTree(id, t, s, (i+k)%4, 0, 0)
@@ -652,7 +677,7 @@ func Run(c *core.Ctx) core.FinishOpts {
 	}
 	core.Parallel(nRnd, workers, func(i int) {
 		t := rnd[i]
-		for k, s := range []supply{pure[0], pure[1], pure[2], pure[3], mixed[i%len(mixed)]} {
+		for k, s := range []supply{pure[0], pure[1], pure[2], pure[3], pure[4+i%2], mixed[i%len(mixed)]} {
 			id := fmt.Sprintf("rnd-%d-%s", i, string(s[:]))
 			if only != "" && only != id {
 				continue
